@@ -11,6 +11,7 @@ package rotemplate
 //@   props C18
 //@   binds v tpl template
 //@   calls Execute String
+//@   params v
 //@   maypanic
 //@   track call.Template.Execute call.Buffer.String
 //@   ensures [executes-the-parsed-template-once-on-the-item-and-returns-the-text|C18] trace(call.Template.Execute(tpl, _, v), call.Buffer.String(_)) && result0 == res(call.Buffer.String) && result1 == res(call.Template.Execute)
@@ -19,6 +20,7 @@ package rotemplate
 //@   props C18
 //@   binds v tpl template
 //@   calls Execute String
+//@   params v
 //@   maypanic
 //@   track call.Template.Execute call.Buffer.String
 //@   ensures [executes-the-parsed-template-once-on-the-item-and-returns-the-text|C18] trace(call.Template.Execute(tpl, _, v), call.Buffer.String(_)) && result0 == res(call.Buffer.String) && result1 == res(call.Template.Execute)
